@@ -224,3 +224,243 @@ Example budget_hypotheses_satisfiable :
 Proof.
   exists (fun _ _ => Ret VNil), (fun _ _ _ => inr (Dec 0 0)). split; [intros id args; exact I|intros x y w c H; discriminate].
 Qed.
+
+(* ------------------------------------------------------------------------------------------------ *)
+(* THE EXPONENT INVARIANT of the arithmetic: the operators keep every number within the exponent bound.
+   [vbound B v] = every number that v denotes (as a number, a numeric text, through a default, inside a container) has
+   a decimal exponent within +-B.  For B >= 100000 (maxNumberExponent) it is preserved by + - * / ^ (whole powers),
+   unary minus and the comparisons: + and - give the smaller of the two exponents, * and ^ are guarded to +-100000
+   on the canonical form, / and a negative power give -16.  (Not by &: that builds a TEXT, whose reading as a number is
+   bounded by its length, see concat_op_within; and not by a non-integral power, whose value is not modelled.) *)
+
+Lemma dec_div_round_exponent : forall a b p q, dec_div_round a b p = inr q -> dexp q = - p.
+Proof.
+  intros a b p q. unfold dec_div_round, dec_quorem. destruct (mant b =? 0); [discriminate|].
+  destruct (negb (in_int32 _)); [discriminate|].
+  destruct (dexp a - dexp b - - p <? 0); cbv zeta;
+    match goal with |- context [dec_cmp ?u ?v] => destruct (dec_cmp u v) end;
+    intros H; injection H as <-; reflexivity.
+Qed.
+
+Lemma out_of_range_false : forall e, exponent_out_of_range e = false -> Z.abs e <= max_number_exponent.
+Proof. intros e H. apply exponent_in_range in H. unfold max_number_exponent. lia. Qed.
+
+Lemma mul_body_exponent : forall x y p, mul_body x y = Ret (VNum p) -> Z.abs (dexp p) <= max_number_exponent.
+Proof.
+  intros x y p. unfold mul_body. cbv zeta.
+  destruct (exponent_out_of_range (dexp _ + dexp _)) eqn:E; [discriminate|].
+  destruct (exponent_out_of_range (num_digits _ + num_digits _)); [discriminate|].
+  unfold dec_mul. destruct (in_int32 _); [|discriminate]. intros H. injection H as <-. simpl.
+  apply out_of_range_false. exact E.
+Qed.
+
+Lemma pow_body_integral_exponent : forall fp x y p, dec_is_integer (dec_canonical y) = true ->
+  pow_body fp x y = Ret (VNum p) -> Z.abs (dexp p) <= max_number_exponent.
+Proof.
+  intros fp x y p Hi. unfold pow_body. cbv zeta.
+  destruct (exponent_out_of_range (dexp (dec_canonical x) * dec_trunc (dec_canonical y))) eqn:E; [discriminate|].
+  destruct (_ && _); [discriminate|]. rewrite Hi. cbn [negb andb].
+  unfold dec_pow. destruct (mant (dec_canonical x) =? 0); [intros H; injection H as <-; unfold max_number_exponent; simpl; lia|].
+  destruct (mant (dec_canonical y) =? 0); [intros H; injection H as <-; unfold max_number_exponent; simpl; lia|].
+  rewrite Hi. cbn [negb andb]. unfold dec_pow_nat.
+  destruct (in_int32 _); [|discriminate].
+  apply out_of_range_false in E.
+  destruct (0 <=? dec_trunc (dec_canonical y)) eqn:En.
+  - intros H. injection H as <-. simpl. apply Z.leb_le in En. rewrite (Z.abs_eq (dec_trunc (dec_canonical y))) by assumption. exact E.
+  - destruct (dec_div_round _ _ _) as [c|q] eqn:Ed; [discriminate|]. intros H. injection H as <-.
+    rewrite (dec_div_round_exponent _ _ _ _ Ed). unfold pow_precision_negative_exponent, max_number_exponent. lia.
+Qed.
+
+Lemma mul_body_shape : forall x y v, mul_body x y = Ret v -> v = VErr \/ exists p, v = VNum p.
+Proof.
+  intros x y v. unfold mul_body. cbv zeta.
+  destruct (exponent_out_of_range (dexp _ + dexp _)); [intros H; injection H as <-; left; reflexivity|].
+  destruct (exponent_out_of_range (num_digits _ + num_digits _)); [intros H; injection H as <-; left; reflexivity|].
+  destruct (dec_mul _ _); [|discriminate]. intros H. injection H as <-. right. eexists. reflexivity.
+Qed.
+
+Lemma pow_body_shape : forall fp x y v, pow_body fp x y = Ret v -> v = VErr \/ exists p, v = VNum p.
+Proof.
+  intros fp x y v. unfold pow_body, dec_pow. cbv zeta.
+  repeat (match goal with
+          | |- context [if ?c then _ else _] => destruct c
+          | |- context [match ?c with _ => _ end] => destruct c
+          end; try discriminate; try (intros H; injection H as <-; (left; reflexivity) || (right; eexists; reflexivity))).
+Qed.
+
+Theorem arithmetic_keeps_exponent_bound : forall fp B op x y v,
+  max_number_exponent <= B -> vbound B x = true -> vbound B y = true -> op <> OConcat ->
+  (op = OPow -> forall n2, to_number y = Ok n2 -> dec_is_integer (dec_canonical n2) = true) ->
+  eval_binop fp op x y = Ret v -> vbound B v = true.
+Proof.
+  intros fp B op x y v HB Hx Hy Hc Hp.
+  destruct op; try contradiction; simpl; unfold textual_binary, numerical_binary, cmp_is;
+    try (destruct (to_text x); [|intros H; injection H as <-; reflexivity];
+         destruct (to_text y); intros H; injection H as <-; reflexivity);
+    (destruct (to_number x) as [n1|] eqn:E1; [|intros H; injection H as <-; reflexivity];
+     destruct (to_number y) as [n2|] eqn:E2; [|intros H; injection H as <-; reflexivity]);
+    pose proof (vbound_to_number _ _ _ Hx E1) as H1; pose proof (vbound_to_number _ _ _ Hy E2) as H2;
+    try (intros H; injection H as <-; reflexivity).
+  - (* + *) intros H. injection H as <-. simpl. apply Z.leb_le. lia.
+  - (* - *) intros H. injection H as <-. simpl. apply Z.leb_le. lia.
+  - (* * *) intros H. destruct (mul_body_shape _ _ _ H) as [->|[p ->]]; [reflexivity|].
+    simpl. apply Z.leb_le. pose proof (mul_body_exponent _ _ _ H). lia.
+  - (* / *) destruct (dec_eqb n2 (Dec 0 0)); [intros H; injection H as <-; reflexivity|].
+    unfold dec_div. destruct (dec_div_round n1 n2 division_precision) as [c|q] eqn:Ed; [discriminate|].
+    intros H. injection H as <-. simpl. rewrite (dec_div_round_exponent _ _ _ _ Ed).
+    apply Z.leb_le. unfold division_precision, max_number_exponent in *. lia.
+  - (* ^ *) intros H. specialize (Hp eq_refl n2 eq_refl).
+    destruct (pow_body_shape _ _ _ _ H) as [->|[p ->]]; [reflexivity|].
+    simpl. apply Z.leb_le. pose proof (pow_body_integral_exponent _ _ _ _ Hp H). lia.
+Qed.
+
+(* ... and therefore by every TREE of these operators over bounded literals and a bounded context: the invariant of
+   review finding N2 for the arithmetic fragment of the evaluator (context references, dot and index lookups, unary minus, + - * / and
+   the comparisons, = and !=, ^ with a whole-number literal power; no calls and no &).  The exponent of every number such an expression evaluates to is within +-B for any B >= 100000 that the
+   literals and the context respect — however deep the tree: no evaluation of this fragment builds an exponent that
+   makes Decimal.Mul / QuoRem overflow, and what it costs to write the result's exponent is at most B. *)
+Inductive arith : expr -> Prop :=
+| ALit : forall v, arith (ELit v)
+| ARef : forall n, arith (ERef n)
+| ADot : forall c l, arith c -> arith (EDot c l)
+| AIdx : forall c l, arith c -> arith l -> arith (EIdx c l)
+| ANeg : forall a, arith a -> arith (ENeg a)
+| ABin : forall op a b, op <> OConcat -> op <> OPow -> arith a -> arith b -> arith (EBin op a b)
+| APow : forall a d, dec_is_integer (dec_canonical d) = true -> arith a -> arith (EBin OPow a (ELit (VNum d))).
+
+Fixpoint literals_within (B : Z) (e : expr) : Prop :=
+  match e with
+  | ELit v => vbound B v = true
+  | EDot c _ => literals_within B c
+  | EIdx c l => literals_within B c /\ literals_within B l
+  | ENeg a => literals_within B a
+  | EBin _ a b => literals_within B a /\ literals_within B b
+  | _ => True
+  end.
+
+Lemma obj_get_vbound : forall B props key v,
+  vbound B (VObject None props) = true -> obj_get props key = Some v -> vbound B v = true.
+Proof.
+  intros B props key v. simpl. induction props as [|[k x] r IH]; simpl; [discriminate|].
+  intros Hb. apply andb_prop in Hb as [H1 H2]. destruct (text_eqb _ _).
+  - intros H. injection H as <-. exact H1.
+  - apply IH. exact H2.
+Qed.
+
+Lemma vbound_array_nth : forall B items k v,
+  vbound B (VArray items) = true -> nth_error items k = Some v -> vbound B v = true.
+Proof.
+  intros B items. simpl. induction items as [|x r IH]; intros k v Hb Hn; [destruct k; discriminate|].
+  apply andb_prop in Hb as [H1 H2]. destruct k as [|k]; simpl in Hn.
+  - injection Hn as <-. exact H1.
+  - eapply IH; eassumption.
+Qed.
+
+Lemma obj_get_vbound_def : forall B def props key v,
+  vbound B (VObject def props) = true -> obj_get props key = Some v -> vbound B v = true.
+Proof.
+  intros B def props key v Hb. apply (obj_get_vbound B props key v). simpl in *.
+  apply andb_prop in Hb as [_ H]. exact H.
+Qed.
+
+(* a lookup gives a part of the container (or nil / an error) *)
+Lemma resolve_lookup_vbound : forall B c l dot v,
+  vbound B c = true -> resolve_lookup c l dot = Ret v -> vbound B v = true.
+Proof.
+  intros B c l dot v Hc. unfold resolve_lookup. destruct c; try (intros H; injection H as <-; reflexivity).
+  - destruct (to_integer l) as [i|]; [|intros H; injection H as <-; reflexivity].
+    destruct (_ || _); [intros H; injection H as <-; reflexivity|]. cbv zeta.
+    unfold go_index. destruct (_ <? 0); [discriminate|].
+    destruct (nth_error items _) as [w|] eqn:En; [|discriminate].
+    intros H. injection H as <-. eapply vbound_array_nth; eassumption.
+  - destruct (to_text l) as [p|]; [|intros H; injection H as <-; reflexivity].
+    destruct (obj_get props p) as [w|] eqn:Eg.
+    + intros H. injection H as <-. eapply obj_get_vbound_def; eassumption.
+    + destruct dot; intros H; injection H as <-; reflexivity.
+Qed.
+
+Theorem arithmetic_tree_keeps_exponent_bound : forall wclass regex ext fp lf B ctx e v,
+  max_number_exponent <= B -> vbound B (VObject None ctx) = true -> arith e -> literals_within B e ->
+  eval wclass regex ext fp lf ctx e = Ret v -> vbound B v = true.
+Proof.
+  intros wclass regex ext fp lf B ctx e v HB Hctx Ha. revert v.
+  induction Ha as [lv|n|c l Hc IHc|c l Hc IHc Hl' IHl|a Ha IH|op a b Hc Hp Ha IHa Hb IHb|a d Hi Ha IH]; intros v Hl; simpl.
+  - intros H. injection H as <-. exact Hl.
+  - unfold scope_get. destruct (obj_get ctx n) as [cv|] eqn:Eg.
+    + intros H. injection H as <-. eapply obj_get_vbound; eassumption.
+    + destruct (lf (lower n)); intros H; injection H as <-; reflexivity.
+  - simpl in Hl. destruct (eval wclass regex ext fp lf ctx c) as [cv|pc|] eqn:Ec; simpl; try discriminate.
+    destruct (is_err cv); [intros H; injection H as <-; exact (IHc cv Hl eq_refl)|].
+    apply resolve_lookup_vbound. exact (IHc cv Hl eq_refl).
+  - simpl in Hl. destruct Hl as [Hlc Hll].
+    destruct (eval wclass regex ext fp lf ctx c) as [cv|pc|] eqn:Ec; simpl; try discriminate.
+    destruct (is_err cv); [intros H; injection H as <-; exact (IHc cv Hlc eq_refl)|].
+    destruct (eval wclass regex ext fp lf ctx l) as [lv|pc|] eqn:El; simpl; try discriminate.
+    destruct (is_err lv); [intros H; injection H as <-; exact (IHl lv Hll eq_refl)|].
+    apply resolve_lookup_vbound. exact (IHc cv Hlc eq_refl).
+  - simpl in Hl. destruct (eval wclass regex ext fp lf ctx a) as [av|c|] eqn:Ea; simpl; try discriminate.
+    unfold eval_neg. destruct (to_number av) as [n|] eqn:En; [|intros H; injection H as <-; reflexivity].
+    intros H. injection H as <-. simpl. apply Z.leb_le.
+    pose proof (vbound_to_number _ _ _ (IH av Hl eq_refl) En). assumption.
+  - simpl in Hl. destruct Hl as [Hla Hlb].
+    destruct (eval wclass regex ext fp lf ctx a) as [av|c|] eqn:Ea; simpl; try discriminate.
+    destruct (eval wclass regex ext fp lf ctx b) as [bv|c|] eqn:Eb; simpl; try discriminate.
+    intros H. eapply (arithmetic_keeps_exponent_bound fp B op av bv v HB (IHa av Hla eq_refl) (IHb bv Hlb eq_refl) Hc);
+      [intros E; contradiction|exact H].
+  - simpl in Hl. destruct Hl as [Hla Hlb].
+    destruct (eval wclass regex ext fp lf ctx a) as [av|c|] eqn:Ea; simpl; try discriminate.
+    intros H. eapply (arithmetic_keeps_exponent_bound fp B OPow av (VNum d) v HB (IH av Hla eq_refl) Hlb);
+      [discriminate|intros _ n2 E; injection E as <-; exact Hi|exact H].
+Qed.
+
+(* ... so the arithmetic fragment over a context and literals within the exponent budget (+-10^9) NEVER panics and
+   never runs out of the model's fuel — no class excepted and no hypothesis on the unmodelled functions or on the
+   series part of ^ (the fragment calls neither): the statement that is only _partial for the whole evaluator. *)
+Theorem arithmetic_tree_never_panics : forall wclass regex ext fp lf ctx e,
+  vbound exponent_budget (VObject None ctx) = true -> arith e -> literals_within exponent_budget e ->
+  ok false (eval wclass regex ext fp lf ctx e).
+Proof.
+  intros wclass regex ext fp lf ctx e Hctx Ha.
+  assert (HB : max_number_exponent <= exponent_budget) by (unfold max_number_exponent, exponent_budget; lia).
+  pose proof (fun e' v Ha' Hl' => arithmetic_tree_keeps_exponent_bound wclass regex ext fp lf exponent_budget ctx e' v HB Hctx Ha' Hl') as Hinv.
+  induction Ha as [lv|n|c l Hc IHc|c l Hc IHc Hl' IHl|a Ha IH|op a b Hc Hp Ha IHa Hb IHb|a d Hi Ha IH]; intros Hl; simpl.
+  - exact I.
+  - destruct (scope_get lf ctx n); exact I.
+  - simpl in Hl. specialize (IHc Hl). destruct (eval wclass regex ext fp lf ctx c) as [cv|pc|]; simpl; try assumption.
+    destruct (is_err cv); [exact I|apply resolve_lookup_ok].
+  - simpl in Hl. destruct Hl as [Hlc Hll]. specialize (IHc Hlc). specialize (IHl Hll).
+    destruct (eval wclass regex ext fp lf ctx c) as [cv|pc|]; simpl; try assumption.
+    destruct (is_err cv); [exact I|].
+    destruct (eval wclass regex ext fp lf ctx l) as [lv|pc|]; simpl; try assumption.
+    destruct (is_err lv); [exact I|apply resolve_lookup_ok].
+  - simpl in Hl. specialize (IH Hl). destruct (eval wclass regex ext fp lf ctx a) as [av|pc|]; simpl; try assumption.
+    apply eval_neg_ok.
+  - simpl in Hl. destruct Hl as [Hla Hlb]. specialize (IHa Hla). specialize (IHb Hlb).
+    pose proof (Hinv a) as Hia. pose proof (Hinv b) as Hib.
+    destruct (eval wclass regex ext fp lf ctx a) as [av|pc|]; simpl; try assumption.
+    destruct (eval wclass regex ext fp lf ctx b) as [bv|pc|]; simpl; try assumption.
+    destruct op; try (apply eval_binop_no_panic; discriminate); try contradiction.
+    apply divide_full; apply vbound_arg_exp_ok; [exact (Hia av Ha Hla eq_refl)|exact (Hib bv Hb Hlb eq_refl)].
+  - simpl in Hl. destruct Hl as [Hla Hlb]. specialize (IH Hla).
+    destruct (eval wclass regex ext fp lf ctx a) as [av|pc|]; simpl; try assumption.
+    unfold numerical_binary. destruct (to_number av); [|exact I]. simpl. apply pow_body_integral_ok. exact Hi.
+Qed.
+
+Lemma arithmetic_tree_never_panics_statement : forall wclass regex ext fp lf ctx e,
+  vbound exponent_budget (VObject None ctx) = true -> arith e -> literals_within exponent_budget e ->
+  eval wclass regex ext fp lf ctx e <> NoFuel /\ forall c, eval wclass regex ext fp lf ctx e <> Panic c.
+Proof.
+  intros wclass regex ext fp lf ctx e H1 H2 H3.
+  exact (proj1 (ok_false_iff _) (arithmetic_tree_never_panics wclass regex ext fp lf ctx e H1 H2 H3)).
+Qed.
+
+Example arithmetic_fragment_inhabited :
+  arith (EBin ODiv (EBin OAdd (ERef [97%N]) (ELit (VNum (Dec 15 (-1))))) (EBin OPow (EIdx (ERef [98%N]) (ELit (VNum (Dec 0 0)))) (ELit (VNum (Dec 20 (-1))))))
+  /\ literals_within exponent_budget (EBin ODiv (EBin OAdd (ERef [97%N]) (ELit (VNum (Dec 15 (-1))))) (EBin OPow (EIdx (ERef [98%N]) (ELit (VNum (Dec 0 0)))) (ELit (VNum (Dec 20 (-1))))))
+  /\ vbound exponent_budget (VObject None [([97%N], VNum (Dec 7 0)); ([98%N], VArray [VNum (Dec 3 0)])]) = true.
+Proof.
+  split; [|split; [simpl; repeat split; reflexivity|vm_compute; reflexivity]].
+  apply ABin; try discriminate.
+  - apply ABin; try discriminate; constructor.
+  - apply APow; [vm_compute; reflexivity|]. apply AIdx; constructor.
+Qed.
